@@ -10,7 +10,7 @@
    bad, feature lists with any children, stream errors, any element, garbage,
    with or without leading white space, ending anywhere), the scripted outcomes
    of the other features and the observed map-iteration choices. *)
-From XV Require Import lib.Bytes gen.NegTables C02.Model C02.Frame C02.Phase C02.Proofs.
+From XV Require Import lib.Bytes gen.NegTables gen.C02Restart C02.Model C02.Frame C02.Phase C02.Adv C02.Proofs.
 
 (* In clear text the session writes nothing but a stream header followed by at
    most one STARTTLS request: what it wrote before a TLS layer was installed is
@@ -76,6 +76,30 @@ Theorem C02_cleartext_not_reinterpreted :
 Proof. exact cleartext_not_reinterpreted. Qed.
 Print Assumptions C02_cleartext_not_reinterpreted.
 
+(* Nor does it survive as state of the protected stream: once a TLS layer has
+   been installed, every name space the session reports as advertised
+   (Session.Feature, the keys of s.features) was a child of a features list
+   consumed after the switch, hence of a features list of the TLS-layer script;
+   what the peer advertised in clear text is forgotten.  For every
+   configuration, whatever the outcome. *)
+Theorem C02_features_from_protected_stream_only :
+  forall tee c fv bits clear tls outs choices,
+  let r := run tee c fv bits clear tls outs choices in
+  switched (trace r) = true ->
+  incl (m_adv (r_state r)) (adv_spaces (ins_of (after_switch (trace r)))) /\
+  incl (m_adv (r_state r)) (adv_spaces tls).
+Proof. exact features_from_protected_stream_only. Qed.
+Print Assumptions C02_features_from_protected_stream_only.
+
+(* ... in particular on every established session of an admitted configuration. *)
+Theorem C02_established_features_from_tls :
+  forall tee c fv bits clear tls outs choices,
+  c02_config c = true -> c02_bits bits = true ->
+  let r := run tee c fv bits clear tls outs choices in
+  r_class r = ROk -> incl (m_adv (r_state r)) (adv_spaces tls).
+Proof. exact established_features_from_tls. Qed.
+Print Assumptions C02_established_features_from_tls.
+
 (* One StartTLS(nil) feature value used for any number of sessions, one after
    the other: every handshake of session i is given the domain of session i's
    own address, whatever happened in the sessions before. *)
@@ -114,6 +138,16 @@ Theorem C02_builtin_features_admitted :
   gated starttls_feature = true /\ gated sasl_feature = true /\ gated bind_feature = true.
 Proof. exact builtin_features_admitted. Qed.
 Print Assumptions C02_builtin_features_admitted.
+
+(* The restart block of negotiateSession, as read from session.go on every run,
+   is the one the model's [reset_stream] / [switch_layer] stand for: the
+   advertised-features map and the negotiated map are each emptied, decoder and
+   encoder are renewed on the new connection. *)
+Theorem C02_restart_block_as_modelled :
+  clears (str "features") = true /\ clears (str "negotiated") = true /\
+  restart_renews_decoder = true /\ restart_renews_encoder = true.
+Proof. exact restart_block_as_modelled. Qed.
+Print Assumptions C02_restart_block_as_modelled.
 
 Theorem C02_sasl_requires_secure : N.land ft_sasl_nec st_Secure = st_Secure.
 Proof. exact sasl_requires_secure. Qed.
